@@ -59,6 +59,10 @@ def record(tw, rng, n_chains, stats):
             close = (pb - pa) < 1e-9 * max(M1 / M2, M2 / M1)
             if pa == pb:
                 continue
+        if rng.random() < 0.3:
+            # the fractions as numpy scalars (what numpy.linspace / an array element gives): the same numbers, another type
+            import numpy
+            pa, pb = numpy.float64(pa), numpy.float64(pb)
         a = pv.Composition(p=pa, type=t0)
         b = pv.Composition(p=pb, type=t0)
         tr = tw.new()
@@ -91,11 +95,19 @@ def record(tw, rng, n_chains, stats):
         t0 = gen.tstr(rng, rng.choice(["weight", "molar"]))
         other = "molar" if t0 == "weight" else "weight"
         o = pv.Composition(p=rng.uniform(0.02, 0.98), type=t0)
+        pure_after_edit = rng.random() < 0.3
+        if pure_after_edit:
+            o = pv.Composition(p=rng.choice([0.0, 1.0]), type=t0)       # a pure composition is converted, and the RESULT is edited ...
         try:
             mid = o.to_molar(mix_a) if other == "molar" else o.to_weight(mix_a)
             edited = same or rng.random() < 0.3
             if edited:
                 mid.p = rng.uniform(0.02, 0.98)
+            if pure_after_edit:
+                # ... then ANOTHER pure composition is converted: the ends are still fixed points
+                mid.p = rng.uniform(0.02, 0.98)
+                mid = pv.Composition(p=o.p, type=other)
+                edited = False
             src = comp_state(mid)
             out = mid.to_molar(mix_b) if t0 == "molar" else mid.to_weight(mix_b)
             tw.add([{"ev": "Foreign", "src": src, "to": t0, "out": comp_state(out), "edited": edited, "same_mixture": same, "raised": False,
